@@ -29,7 +29,9 @@ const (
 	NtAlicePw = "alice-secret-pw"
 )
 
-func NtUsers() map[string]string { return map[string]string{"alice": NtAlicePw, "empty": ""} }
+const NtBobPw = "bob-other-secret-pw"
+
+func NtUsers() map[string]string { return map[string]string{"alice": NtAlicePw, "bob": NtBobPw, "empty": ""} }
 
 // ntTarget abstracts the two ways of reaching the verifier.
 type ntTarget interface {
@@ -151,11 +153,16 @@ func RunNtlm(s *NtScript, tw *TraceWriter, rng *rand.Rand, conn *grpc.ClientConn
 			case "alice_": // alice's name with a blank appended
 				name, pass = "alice ", NtAlicePw
 			}
-			if pw != "right" {
+			if pw == "wrong" {
 				pass = pass + "-wrong"
 			}
 			cl := &ntlm.V2ClientSession{}
-			cl.SetUserInfo(name, pass, "")
+			if pw == "asbob" {
+				// the proof is computed from bob's name and password; the message will name `name`
+				cl.SetUserInfo("bob", NtBobPw, "")
+			} else {
+				cl.SetUserInfo(name, pass, "")
+			}
 			if err := cl.ProcessChallengeMessage(c.msg); err != nil {
 				return fmt.Errorf("client: %w", err)
 			}
@@ -163,8 +170,13 @@ func RunNtlm(s *NtScript, tw *TraceWriter, rng *rand.Rand, conn *grpc.ClientConn
 			if err != nil {
 				return fmt.Errorf("client: %w", err)
 			}
+			if pw == "asbob" {
+				if up, e := ntlm.CreateStringPayload(name); e == nil {
+					am.UserName = up
+				}
+			}
 			msg = base64.StdEncoding.EncodeToString(am.Bytes())
-			pwOk := pw == "right" && NtUsers()[u] != ""
+			pwOk := (pw == "right" && NtUsers()[u] != "") || (pw == "asbob" && u == "bob")
 			ev["u"], ev["pwOk"], ev["ch"] = u, pwOk, c.id
 			lastAuth, lastAuthU, lastAuthPwOk, lastAuthCh = msg, u, pwOk, c.id
 		case "replay":
